@@ -291,10 +291,12 @@ Record input := mk_input {
   i_tmps : list (N * string);                  (* oracle: temporary name os.CreateTemp chose, as the hook reported it *)
   i_sched : list sev }.
 
+Definition readrec := (N * string * oread)%type.   (* reader, URL, result of Get *)
+
 Record obs := mk_obs {
   o_points : list N;        (* per SW, in order: hook point reached: 1 created, 2 written, 3 closed,
                                4 returned nil, 5 returned an error, 0 nothing left to do *)
-  o_reads : list (N * oread);   (* reader -> result of Get *)
+  o_reads : list readrec;   (* in schedule order *)
   o_dir : list (string * string) }.
   (* final listing of the cache root: name -> "" (empty) | bundle name (complete encoding) | "<" partial | "?" other *)
 
@@ -327,33 +329,11 @@ Definition macro (i : input) (s : state) (w : N) : list event * N :=
       end
   end.
 
-Definition read_events (r : N) (u : string) (s : state) (sha : string -> list N) : list event :=
+(* a whole Get while every writer is held: open, one read(2) of everything, EOF *)
+Definition read_events (sha : string -> list N) (r : N) (u : string) (s : state) : list event :=
   match getS (key sha u) (s_dir s) with
   | None => [EOpen r u]
-  | Some i =>
-      match getN i (s_ino s) with
-      | Some d => [EOpen r u; ERead r (List.length d); EEof r]
-      | None => [EOpen r u]
-      end
-  end.
-
-Record mst := mk_mst { m_s : state; m_points : list N; m_readers : list N; m_stuck : bool }.
-
-Definition mstep (i : input) (m : mst) (e : sev) : mst :=
-  let sha := sha_of (i_sha i) in
-  match e with
-  | SW w =>
-      let '(evs, p) := macro i (m_s m) w in
-      match exec sha (m_s m) evs with
-      | Some s' => mk_mst s' (m_points m ++ [p]) (m_readers m) (m_stuck m)
-      | None => mk_mst (m_s m) (m_points m ++ [0%N]) (m_readers m) true
-      end
-  | SR r u =>
-      match exec sha (m_s m) (read_events r u (m_s m) sha) with
-      | Some s' => mk_mst s' (m_points m) (m_readers m ++ [r]) (m_stuck m)
-      | None => mk_mst (m_s m) (m_points m) (m_readers m) true
-      end
-  | _ => m
+  | Some i => [EOpen r u; ERead r (match getN i (s_ino s) with Some d => List.length d | None => 0%nat end); EEof r]
   end.
 
 Definition oread_of (s : state) (r : N) : oread :=
@@ -369,12 +349,38 @@ Definition oread_of (s : state) (r : N) : oread :=
 Definition listing (s : state) : list (string * string) :=
   map (fun ni => (fst ni, match getN (snd ni) (s_ino s) with Some d => str_of d | None => "?" end)) (s_dir s).
 
-Definition mrun (i : input) : mst := fold_left (mstep i) (i_sched i) (mk_mst init [] [] false).
+(* runs a hook-driven schedule from state s: hook points, reads, final state;
+   None = stuck (an event of the expansion is not enabled: e.g. the temporary name
+   given by the oracle already exists, or a reader id is used twice) *)
+Fixpoint mgo (i : input) (s : state) (sched : list sev) : option (list N * list readrec * state) :=
+  match sched with
+  | [] => Some ([], [], s)
+  | SW w :: rest =>
+      match exec (sha_of (i_sha i)) s (fst (macro i s w)) with
+      | Some s' =>
+          match mgo i s' rest with
+          | Some (ps, rs, sf) => Some (snd (macro i s w) :: ps, rs, sf)
+          | None => None
+          end
+      | None => None
+      end
+  | SR r u :: rest =>
+      match exec (sha_of (i_sha i)) s (read_events (sha_of (i_sha i)) r u s) with
+      | Some s' =>
+          match mgo i s' rest with
+          | Some (ps, rs, sf) => Some (ps, (r, u, oread_of s' r) :: rs, sf)
+          | None => None
+          end
+      | None => None
+      end
+  | _ :: rest => mgo i s rest
+  end.
 
 Definition model (i : input) : obs :=
-  let m := mrun i in
-  if m_stuck m then mk_obs [] [] [("stuck", "stuck")]
-  else mk_obs (m_points m) (map (fun r => (r, oread_of (m_s m) r)) (m_readers m)) (listing (m_s m)).
+  match mgo i init (i_sched i) with
+  | Some (ps, rs, sf) => mk_obs ps rs (listing sf)
+  | None => mk_obs [] [] [("stuck", "stuck")]
+  end.
 
 (* ---------- boolean equalities ---------- *)
 Definition oread_eqb (a b : oread) : bool :=
@@ -394,74 +400,64 @@ Definition dir_eqb (a b : list (string * string)) : bool :=
 
 Definition obs_eqb (a b : obs) : bool :=
   list_eqb N.eqb (o_points a) (o_points b)
-  && list_eqb (pair_eqb N.eqb oread_eqb) (o_reads a) (o_reads b)
+  && list_eqb (pair_eqb (pair_eqb N.eqb String.eqb) oread_eqb) (o_reads a) (o_reads b)
   && dir_eqb (o_dir a) (o_dir b).
 
 (* ---------- the property oracle (observations only; never calls [model]) ---------- *)
+Definition memN (x : N) (l : list N) : bool := existsb (N.eqb x) l.
 
-(* the API-level history of a case: hook-driven schedules are translated with
-   the observed hook points (first SW of a writer = its Set starts; the SW that
-   reports point 4/5 = its Set returns) *)
-Fixpoint api_hist (sched : list sev) (pts : list N) (started : list N) : list sev :=
-  match sched with
-  | [] => []
-  | SW w :: rest =>
-      let p := hd 0%N pts in
-      let st := if existsb (N.eqb w) started then [] else [AStart w] in
-      let rt := if (p =? 4)%N then [ARet w true] else if (p =? 5)%N then [ARet w false] else [] in
-      st ++ rt ++ api_hist rest (tl pts) (w :: started)
-  | SR r u :: rest => ABeg r u :: AEnd r :: api_hist rest pts started
-  | e :: rest => e :: api_hist rest pts started
-  end.
-
-(* monitor state per run: for every writer its status; 0 unknown, 1 pending
-   (started, not returned), 2 allowed (its bundle may be the visible one), 3 stale
-   (returned before a later successful Set for the same key started: must not be seen) *)
-Record mon := mk_mon {
-  n_status : list (N * N);
-  n_pend_at : list (N * list N);  (* ok-returned writer -> writers already returned when it started (snapshot) *)
-  n_hit : list string;            (* keys for which a Set has returned nil *)
-  n_open : list (N * (string * (list N * bool))) }.
-  (* reader in flight -> (url, (writers not stale at ABeg, miss allowed at ABeg)) *)
-
+Definition ukey (i : input) (u : string) : string := key (sha_of (i_sha i)) u.
 Definition wkey (i : input) (w : N) : string :=
-  match getN w (i_writers i) with Some (u, _) => key (sha_of (i_sha i)) u | None => "" end.
+  match getN w (i_writers i) with Some (u, _) => ukey i u | None => "" end.
 Definition wbundle (i : input) (w : N) : string :=
   match getN w (i_writers i) with Some (_, b) => b | None => "" end.
-Definition status (m : mon) (w : N) : N := match getN w (n_status m) with Some x => x | None => 0%N end.
 
-Definition mon_step (i : input) (reads : list (N * oread)) (mo : mon * bool) (e : sev) : mon * bool :=
+Fixpoint find_read (r : N) (reads : list readrec) : option oread :=
+  match reads with
+  | [] => None
+  | (r', _, res) :: rest => if (r =? r')%N then Some res else find_read r rest
+  end.
+
+(* The monitor of the API-level history (linearisability-style freshness):
+     n_started  writers whose Set has started
+     n_ret      writers whose Set has returned
+     n_before   writer -> the writers that had already returned when it started
+     n_stale    writers that returned before a later *successful* Set for the same key
+                started: their bundle must not be seen by a read that begins now
+     n_hit      keys for which a Set has returned nil: a read that begins now must hit
+     n_open     reads in flight: reader -> (url, stale set and "miss allowed" at its beginning) *)
+Record mon := mk_mon {
+  n_started : list N; n_ret : list N; n_before : list (N * list N);
+  n_stale : list N; n_hit : list string;
+  n_open : list (N * (string * (list N * bool))) }.
+
+Definition mon0 : mon := mk_mon [] [] [] [] [] [].
+
+Definition mon_step (i : input) (reads : list readrec) (mo : mon * bool) (e : sev) : mon * bool :=
   let '(m, ok) := mo in
   match e with
   | AStart w =>
-      (* remember who had already returned when w started *)
-      let returned := map fst (filter (fun ws => (2 <=? snd ws)%N) (n_status m)) in
-      (mk_mon (putN w 1%N (n_status m)) (putN w returned (n_pend_at m)) (n_hit m) (n_open m), ok)
+      (mk_mon (w :: n_started m) (n_ret m) (putN w (n_ret m) (n_before m)) (n_stale m) (n_hit m) (n_open m), ok)
   | ARet w true =>
-      let before := match getN w (n_pend_at m) with Some l => l | None => [] end in
+      let before := match getN w (n_before m) with Some l => l | None => [] end in
       let k := wkey i w in
-      (* writers of the same key that had returned before w started become stale *)
-      let st' := map (fun ws => if String.eqb (wkey i (fst ws)) k && existsb (N.eqb (fst ws)) before
-                                then (fst ws, 3%N) else ws) (n_status m) in
-      (mk_mon (putN w 2%N st') (n_pend_at m) (k :: n_hit m) (n_open m), ok)
+      (mk_mon (n_started m) (w :: n_ret m) (n_before m)
+              (filter (fun x => String.eqb (wkey i x) k) before ++ n_stale m) (k :: n_hit m) (n_open m), ok)
   | ARet w false =>
-      (mk_mon (putN w 2%N (n_status m)) (n_pend_at m) (n_hit m) (n_open m), ok)
+      (mk_mon (n_started m) (w :: n_ret m) (n_before m) (n_stale m) (n_hit m) (n_open m), ok)
   | ABeg r u =>
-      let k := key (sha_of (i_sha i)) u in
-      let stale := map fst (filter (fun ws => (snd ws =? 3)%N) (n_status m)) in
-      (mk_mon (n_status m) (n_pend_at m) (n_hit m)
-              (putN r (u, (stale, negb (existsb (String.eqb k) (n_hit m)))) (n_open m)), ok)
+      (mk_mon (n_started m) (n_ret m) (n_before m) (n_stale m) (n_hit m)
+              (putN r (u, (n_stale m, negb (existsb (String.eqb (ukey i u)) (n_hit m)))) (n_open m)), ok)
   | AEnd r =>
-      match getN r (n_open m), getN r reads with
+      match getN r (n_open m), find_read r reads with
       | Some (u, (stale, miss_ok)), Some res =>
-          let k := key (sha_of (i_sha i)) u in
           let good :=
             match res with
             | OMiss => miss_ok
             | OHit b =>
-                (* some writer of this key, started by now, not stale when the read began, stored b *)
-                existsb (fun ws => String.eqb (wkey i (fst ws)) k && String.eqb (wbundle i (fst ws)) b
-                                   && negb (existsb (N.eqb (fst ws)) stale)) (n_status m)
+                (* a writer of this key, started by now, not stale when the read began, stores b *)
+                existsb (fun x => String.eqb (wkey i x) (ukey i u) && String.eqb (wbundle i x) b
+                                  && negb (memN x stale)) (n_started m)
             | _ => false
             end in
           (m, ok && good)
@@ -470,47 +466,59 @@ Definition mon_step (i : input) (reads : list (N * oread)) (mo : mon * bool) (e 
   | _ => (m, ok)
   end.
 
-Definition fresh_ok (i : input) (o : obs) : bool :=
-  snd (fold_left (mon_step i (o_reads o)) (api_hist (i_sched i) (o_points o) [])
-                 (mk_mon [] [] [] [], true)).
-
-(* every read belongs to a reader of the schedule and yields a miss or a complete
-   bundle that some writer of the case stores under the key of the URL read *)
-Fixpoint reader_url (sched : list sev) (r : N) : option string :=
+(* runs the monitor over the history of the case; hook-driven schedules are read
+   as API histories with the observed hook points: the first SW of a writer is
+   the start of its Set, the SW that reports point 4 / 5 its return; SR is a whole read *)
+Fixpoint fresh_go (i : input) (reads : list readrec) (sched : list sev) (pts : list N)
+         (mo : mon * bool) : mon * bool :=
   match sched with
-  | [] => None
-  | SR r' u :: rest | ABeg r' u :: rest => if (r =? r')%N then Some u else reader_url rest r
-  | _ :: rest => reader_url rest r
+  | [] => mo
+  | SW w :: rest =>
+      let p := hd 0%N pts in
+      let mo1 := if memN w (n_started (fst mo)) then mo else mon_step i reads mo (AStart w) in
+      let mo2 := if (p =? 4)%N then mon_step i reads mo1 (ARet w true)
+                 else if (p =? 5)%N then mon_step i reads mo1 (ARet w false) else mo1 in
+      fresh_go i reads rest (tl pts) mo2
+  | SR r u :: rest =>
+      fresh_go i reads rest pts (mon_step i reads (mon_step i reads mo (ABeg r u)) (AEnd r))
+  | e :: rest => fresh_go i reads rest pts (mon_step i reads mo e)
   end.
 
+Definition fresh_ok (i : input) (o : obs) : bool :=
+  snd (fresh_go i (o_reads o) (i_sched i) (o_points o) (mon0, true)).
+
+(* every read yields a miss or a complete bundle that some writer of the case
+   stores under the key of the URL read *)
 Definition reads_ok (i : input) (o : obs) : bool :=
-  forallb (fun rr =>
-    match reader_url (i_sched i) (fst rr), snd rr with
-    | Some _, OMiss => true
-    | Some u, OHit b =>
-        existsb (fun w => String.eqb (wkey i (fst w)) (key (sha_of (i_sha i)) u)
-                          && String.eqb (wbundle i (fst w)) b) (i_writers i)
-    | _, _ => false
+  forallb (fun rr : readrec =>
+    let '(_, u, res) := rr in
+    match res with
+    | OMiss => true
+    | OHit b => existsb (fun w => String.eqb (wkey i (fst w)) (ukey i u) && String.eqb (wbundle i (fst w)) b)
+                        (i_writers i)
+    | _ => false
     end) (o_reads o).
 
 (* the directory holds only complete keys of writers and names that cannot be keys;
    temporary names reported by the hook cannot be keys *)
 Definition listing_ok (i : input) (o : obs) : bool :=
-  forallb (fun nt =>
+  forallb (fun nt : string * string =>
     if keyshape (fst nt)
     then existsb (fun w => String.eqb (wkey i (fst w)) (fst nt) && String.eqb (wbundle i (fst w)) (snd nt)) (i_writers i)
     else true) (o_dir o)
-  && forallb (fun wt => negb (keyshape (snd wt))) (i_tmps i).
+  && forallb (fun wt : N * string => negb (keyshape (snd wt))) (i_tmps i).
 
 Definition spec_ok (i : input) (o : obs) : bool :=
   reads_ok i o && fresh_ok i o && listing_ok i o.
 
-(* input contract of the case model: the schedule is hook-driven, the temporary
-   names are admissible results of os.CreateTemp (fresh, of the pattern's form:
-   [m_stuck] false), keys of the URLs are key-shaped (sha256 has 32 bytes) *)
+(* input contract of the case model: a hook-driven schedule that is not stuck
+   (the temporary names given by the oracle are admissible results of
+   os.CreateTemp: of the pattern's form and fresh; reader ids are used once) *)
 Definition wf (i : input) : bool :=
-  negb (i_free i) && negb (m_stuck (mrun i))
-  && forallb (fun e => match e with SW _ | SR _ _ => true | _ => false end) (i_sched i).
+  negb (i_free i)
+  && match mgo i init (i_sched i) with Some _ => true | None => false end
+  && forallb (fun e => match e with SW _ | SR _ _ => true | _ => false end) (i_sched i)
+  && forallb (fun wt : N * string => is_temp (snd wt)) (i_tmps i).
 
 (* ---------- cases ---------- *)
 Record case := mk_case { c_id : N; c_in : input; c_obs : obs }.
